@@ -101,6 +101,20 @@ theorem subtree_complete (g : Graph) (c : Cont) (k n : Nat) (sub : String)
   · exact subtreeIds_complete g _ k n hs hn d hd i hi
   · exact List.mem_append.mpr (Or.inl (subtreeIds_complete g _ k n hs hn d hd i hi))
 
+/-- the same under the *decidable* hypothesis that the collection ended with an empty queue (the
+model driver evaluates it for every section / source deletion of the correspondence runs:
+op `fuel_ok`) -/
+theorem subtree_complete_of_done (g : Graph) (c : Cont) (k : Nat) (sub : String)
+    (hf : (c.info.flavour = .sections ∧ sub = "sections") ∨ (c.info.flavour = .sources ∧ sub = "sources"))
+    (hdone : bfsRest g sub (g.nodes.length * g.nodes.length + 1) [k] = [])
+    (d : Nat) (hd : Desc g sub k d) (i : String) (hi : g.entityId d = some i) :
+    i ∈ delIds g c k := by
+  have h : i ∈ subtreeIds g sub k := bfsIds_complete g sub _ [k] [] hdone k (by simp) d hd i hi
+  unfold delIds
+  rcases hf with ⟨hfl, hsub⟩ | ⟨hfl, hsub⟩ <;> subst hsub <;> simp only [hfl]
+  · exact h
+  · exact List.mem_append.mpr (Or.inl h)
+
 /-- **gone, through every access path**: after a successful `del c[key]` of entity `k`, for every
 `d` whose id was handed over (the entity itself; its subtree for sections / sources): no
 container — of any owner, any flavour — yields it by position, name or id, no iteration contains
@@ -220,11 +234,14 @@ theorem frame_counterexample : ¬ frame_full := by
 /-- `del group.data_arrays[key]`, `del tag.references[key]`, `del x.sources[key]` …: one link of
 the list's own HDF5 group goes (and the link to that group from its owner, if it became empty).
 Every other link list in the file — in particular the owning container of the target — every
-attribute and the set of objects are unchanged -/
+attribute and the set of objects are unchanged; the list keeps its other entries in order, its
+owner keeps every other child -/
 theorem unlink_keeps_target (g g' : Graph) (c : Cont) (key : Key)
     (hlink : isOwning c.info.flavour = false) (hdel : contDel g c key = .ok g') :
     ∃ cn, c.node = some cn ∧ OneLinkRemoved g g' cn c.owner.key c.cname ∧
       (∀ s, s ≠ cn → s ≠ c.owner.key → g'.links s = g.links s) ∧
+      (c.owner.key ≠ cn → ∀ l ∈ g.links c.owner.key, l.1 ≠ c.cname → l ∈ g'.links c.owner.key) ∧
+      (cn ≠ c.owner.key → ∃ name, g'.links cn = (g.links cn).filter (fun l => l.1 != name)) ∧
       (∀ k a, g'.getAttr k a = g.getAttr k a) ∧
       g'.nodes.map (·.1) = g.nodes.map (·.1) := by
   rw [contDel_eq] at hdel
@@ -236,7 +253,9 @@ theorem unlink_keeps_target (g g' : Graph) (c : Cont) (key : Key)
     · split at hdel
       · rename_i cn i hcn _
         have h := h5Delete_effect _ _ _ _ _ _ _ _ hdel
-        exact ⟨cn, hcn, h, fun s h1 h2 => oneLink_links_other h s h1 h2, oneLink_getAttr h, oneLink_keys h⟩
+        exact ⟨cn, hcn, h, fun s h1 h2 => oneLink_links_other h s h1 h2,
+          fun hne l hl hn => oneLink_links_parent h hne l hl hn,
+          fun hne => oneLink_links_grp h hne, oneLink_getAttr h, oneLink_keys h⟩
       · cases hdel
 
 /-- `del x.metadata`, `section.link = None`, `multi_tag.extents = None`: at most the one role link
